@@ -44,6 +44,14 @@ def match_semantics(fb, ctx):
             if (hirq.ctor_name(b) or "").endswith("::Ok"):
                 ok_val = hirq.literal(b["args"][0])
             tab[key] = ("Ok", ok_val) if ok_val is not None else ("Err",) if hirq.err_variant(arm["body"]) else ("?",)
+            # `Some(res) => { res.map_err(..)?; Ok(true) }`: the Err case leaves through `?` on the bound result, the rest is Ok(true)
+            if key == "Some(_)" and isinstance(arm["body"], dict) and arm["body"].get("k") == "block":
+                bid = {q["id"] for q in find_all(p, lambda z: z.get("k") == "bind")}
+                tries = [t_ for t_ in find_all(arm["body"], lambda z: z.get("k") == "match" and str(z.get("src", "")).startswith("TryDesugar")) if find_all(t_["scrut"], lambda y: hirq.is_lid(y, bid))]
+                tl = strip(hirq.tail(arm["body"]))
+                if tries and (hirq.ctor_name(tl) or "").endswith("::Ok") and hirq.literal(tl["args"][0]) is True:
+                    del tab[key]
+                    tab["Some(Ok)"], tab["Some(Err)"] = ("Ok", True), ("Err",)
     ctx.check(tab == {"None": ("Ok", False), "Some(Ok)": ("Ok", True), "Some(Err)": ("Err",)}, "FIND", "find_match: no result -> false, a result -> true, an evaluation error -> Err", "FIND|table", f"found {tab}", f"{fm['file']}:{fm['line']}")
     cm = fb.body(D + "::Rule::check_match_all")
     ch = fb.hir_of(cm)
